@@ -23,5 +23,16 @@ s = open(p).read()
 if '@@SEEDED_TABLE@@' in s:
     s = s.replace('@@SEEDED_TABLE@@', '<!-- SEEDED:BEGIN -->\n@@X@@\n<!-- SEEDED:END -->')
 s = re.sub(r'<!-- SEEDED:BEGIN -->.*?<!-- SEEDED:END -->', lambda _: '<!-- SEEDED:BEGIN -->\n' + table + '\n<!-- SEEDED:END -->', s, flags=re.S)
+# property summaries (hand-written, docs/property_summaries.md) + per-run numbers from evidence/*.json
+summ = open(os.path.join(ROOT, 'docs', 'property_summaries.md')).read()
+ev = ['| id | obligations (discharged) | property theorems with Print Assumptions | quick cases | distinct non-trivial | known findings seen | wall s |', '|---|---|---|---|---|---|---|']
+for f in sorted(glob.glob(os.path.join(ROOT, 'evidence', 'C*.json'))):
+    e = json.load(open(f)); c = e['coverage']
+    ev.append('| %s | %d (%d) | %s | %d | %d | %s | %s |' % (e['property_id'], c['obligations'], c['discharged'], c.get('property_theorems_with_print_assumptions', ''),
+              c['evaluations'], c['distinct_nontrivial'], ', '.join(c.get('known_findings_seen', [])) or '-', e['wall_s']))
+block = summ + '\nNumbers of the last committed quick run (`evidence/*.json`; every `Print Assumptions`: Closed under the global context):\n\n' + '\n'.join(ev)
+if '<!-- PROPS:BEGIN -->' not in s:
+    s = re.sub(r'\(table being completed[^\n]*\)', '<!-- PROPS:BEGIN -->\n@@X@@\n<!-- PROPS:END -->', s)
+s = re.sub(r'<!-- PROPS:BEGIN -->.*?<!-- PROPS:END -->', lambda _: '<!-- PROPS:BEGIN -->\n' + block + '\n<!-- PROPS:END -->', s, flags=re.S)
 open(p, 'w').write(s)
 print(len(rows) - 2, 'seeded changes')
